@@ -437,6 +437,13 @@ class RadioDriver(CRTPDriver):
 
         found = self._radio.scan_selected(to_scan, (0xFF, 0xFF, 0xFF))
 
+        # The links are probed with the address of this (connected) link:
+        # report it the way scan_interface does
+        address = int.from_bytes(bytes(self.parse_uri(self.uri)[3]), 'big')
+        addr_string = ''
+        if address != DEFAULT_ADDR:
+            addr_string = '/{:X}'.format(address)
+
         ret = ()
         for f in found:
             dr_string = ''
@@ -447,7 +454,8 @@ class RadioDriver(CRTPDriver):
             if f['datarate'] == Crazyradio.DR_1MPS:
                 dr_string = '1M'
 
-            ret += ('radio://0/{}/{}'.format(f['channel'], dr_string),)
+            ret += ('radio://0/{}/{}{}'.format(f['channel'], dr_string,
+                                               addr_string),)
 
         return ret
 
